@@ -75,6 +75,8 @@ class FnSpec:
         self.subst = []        # textual substitutions (logged rewrites)
         self.drop_body = False
         self.rename = None
+        self.from_closure = None
+        self.body_post = None
     @property
     def key(self):
         h = "" if self.header in ("-", None) else self.header + "::"
@@ -88,7 +90,7 @@ def parse_fields(rest):
     parts = [p.strip() for p in rest.split(" :: ")]
     pos, kw = [], {}
     for p in parts:
-        m = re.match(r"(requires|ensures|invariant|decreases|iter|invariant_except_break|ensures_loop|body|post)\b\s*(.*)$", p, re.S)
+        m = re.match(r"(requires|ensures|invariant|decreases|iter|invariant_except_break|ensures_loop|body_end|body|post)\b\s*(.*)$", p, re.S)
         if m:
             kw[m.group(1)] = m.group(2).strip()
         else:
@@ -176,6 +178,14 @@ def apply_directive(fs, d, tmpl_name):
         fs.attrs.append(rest.strip())
     elif kw == "rename":
         fs.rename = rest.strip()
+    elif kw == "body_post":
+        # body_post :: <proof text>   -- the whole body `{ B }` becomes `{ let __r = { B }; <proof text> __r }`: a proof hint
+        # about the function's result that does not depend on any statement of the body staying as it is
+        fs.body_post = rest.lstrip(": ").strip()
+    elif kw == "from_closure":
+        # from_closure <let-variable> :: <new fn name> :: <state var>: <state param type> :: <Self type> :: <return type>
+        f = [x.strip() for x in rest.split(" :: ")]
+        fs.from_closure = {"var": f[0], "fn": f[1], "state": f[2], "selfty": f[3], "ret": f[4]}
     elif kw in ("requires", "ensures", "decreases"):
         e, t = split_tag(rest)
         getattr(fs, kw).append((e, t))
@@ -730,6 +740,9 @@ def instantiate_fn(fs, item, em):
             edits.append((bo.start, bo.start, "\n" + "\n".join("                " + x for x in ltxt) + "\n            "))
             if spec.get("body"):
                 edits.append((bo.end, bo.end, " " + spec["body"]))
+            if spec.get("body_end"):
+                bc = toks[L["body_close"]]
+                edits.append((bc.start, bc.start, " " + spec["body_end"] + " "))
         # ---- nested fns
         for nname, spec in fs.nested.items():
             nk = find_nested_fn(toks, lo + 1, hi, nname)
@@ -1121,6 +1134,54 @@ def instantiate_fn(fs, item, em):
                                 continue
                             edits.append((t.start, t.end, new_n)); cnt_r += 1
                     log.append("R-rename-local: local `%s` renamed to `%s` (%d occurrences) (%s)" % (old_n, new_n, cnt_r, why))
+            elif rule == "subst_all":
+                # like subst, every occurrence (at least one):  rule subst_all :: "<from>" :: "<to>" :: why
+                frm, to = pos[0].strip('"'), pos[1].strip('"')
+                why = pos[2] if len(pos) > 2 else ""
+                idxs, q = [], text.find(frm)
+                while q >= 0:
+                    idxs.append(q); q = text.find(frm, q + len(frm))
+                if not idxs:
+                    degraded.append("subst_all rule: %r does not occur" % frm)
+                else:
+                    for q in idxs:
+                        edits.append((q, q + len(frm), to))
+                    log.append("R-subst: %r -> %r, %d occurrences (%s)" % (frm, to, len(idxs), why))
+            elif rule == "visitor_struct":
+                # rule visitor_struct :: <let-variable> :: <StructName> :: <state var> :: <state type>
+                # R-refcell-visitor: the walk visitor closure bound by `let <var> = |..| {..};` is replaced by the unit struct
+                # <StructName> (whose `visit` method is the closure body, rule R-closure-fn); the captured
+                # `let <state> = RefCell::new(INIT);` becomes `let mut <state>: T = INIT;`, `.walk(ARGS, &<var>)` gets the
+                # extra argument `&mut <state>`, and `<state>.into_inner()` becomes `<state>`.
+                var, sname, st, sty = pos[0], pos[1], pos[2], pos[3]
+                ok = True
+                m1 = re.search(r"let\s+%s\s*=\s*RefCell::new\(" % re.escape(st), text)
+                cl = [c for c in find_closures(toks, lo, hi)
+                      if c["bar1"] >= 3 and toks[c["bar1"] - 1].text == "=" and toks[c["bar1"] - 2].text == var and toks[c["bar1"] - 3].text == "let"]
+                m3 = re.search(r"\.walk\(([^;]*?),\s*&%s\)" % re.escape(var), text)
+                m4 = re.search(r"\b%s\s*\.\s*into_inner\(\)" % re.escape(st), text)
+                if not (m1 and len(cl) == 1 and m3 and m4):
+                    degraded.append("visitor_struct rule: expected shape not found (RefCell state %s, closure %s, walk call, into_inner)" % (st, var))
+                else:
+                    # RefCell::new(INIT)
+                    op = m1.end() - 1
+                    depth, q = 0, op
+                    while True:
+                        ch = text[q]
+                        if ch == "(":
+                            depth += 1
+                        elif ch == ")":
+                            depth -= 1
+                            if depth == 0:
+                                break
+                        q += 1
+                    init = text[op + 1:q]
+                    edits.append((m1.start(), q + 1, "let mut %s: %s = %s" % (st, sty, init)))
+                    c = cl[0]
+                    edits.append((toks[c["bar1"]].start, toks[c["body_end"]].end, sname))
+                    edits.append((m3.end() - 1, m3.end() - 1, ", &mut %s" % st))
+                    edits.append((m4.start(), m4.end(), st))
+                    log.append("R-refcell-visitor: RefCell state `%s` threaded as `&mut %s`; visitor closure `%s` replaced by struct %s (static dispatch instead of `dyn Fn`)" % (st, sty, var, sname))
             elif rule == "subst":
                 # closed, logged textual rewrite:  rule subst :: "<from>" :: "<to>" :: why
                 frm, to = pos[0].strip('"'), pos[1].strip('"')
@@ -1153,6 +1214,10 @@ def instantiate_fn(fs, item, em):
                 raise GenError("%s: anchor %r is ambiguous" % (fnkey, anchor))
             p = idxs[nth] if kind == "before" else idxs[nth] + alens[nth]
             edits.append((p, p, (" " if kind == "after" else "") + atext.strip() + ("\n        " if kind == "before" else "")))
+        if fs.body_post:
+            bo_t, bc_t = toks[sh.body_open], toks[sh.body_close]
+            edits.append((bo_t.start, bo_t.start, "{ let __r = "))
+            edits.append((bc_t.end, bc_t.end, "; " + fs.body_post + " __r }"))
     else:
         if fs.closures or fs.loops or fs.anchors or fs.rules:
             raise GenError("%s: body directives on a bodiless fn" % fnkey)
@@ -1168,8 +1233,63 @@ def instantiate_fn(fs, item, em):
         out = out.replace(contract_marker, "\n" + "\n".join(contract_lines) + "\n    ")
     return out, log, degraded
 
+def closure_as_fn(fs, item):
+    """Rule R-closure-fn: the closure bound by `let <var> = |params| -> _ { body };` in the enclosing function becomes the
+    method `fn <name>(&self, <state>: <type>, params) -> <ret> { body }`, where every `<state>.borrow_mut()` in the body is
+    replaced by `<state>` (the RefCell the closure captured becomes an explicit `&mut` parameter), `Self` in the parameter
+    types is spelled out, and `_` parameters get names.  Closures that capture anything else are not supported."""
+    spec = fs.from_closure
+    text = item.text
+    sh = parse_fn(text, fs.name)
+    toks = sh.toks
+    cls = find_closures(toks, sh.body_open, sh.body_close)
+    pick = None
+    for c in cls:
+        b = c["bar1"]
+        if b >= 3 and toks[b - 1].text == "=" and toks[b - 2].text == spec["var"] and toks[b - 3].text == "let":
+            pick = c
+    if pick is None:
+        raise GenError("%s: no closure bound by `let %s =`" % (fs.key, spec["var"]))
+    if not pick["block"]:
+        raise GenError("%s: closure `%s` has no block body" % (fs.key, spec["var"]))
+    params = []
+    for i, (a, b) in enumerate(pick["params"], 1):
+        pt = text[toks[a].start:toks[b - 1].end]
+        m = re.match(r"\s*(\w+)\s*:\s*(.*)$", pt, re.S)
+        if not m:
+            raise GenError("%s: closure `%s`: parameter %r needs a type" % (fs.key, spec["var"], pt))
+        nm, ty = m.group(1), m.group(2)
+        if nm == "_":
+            nm = "_p%d" % i
+        ty = re.sub(r"\bSelf\b", spec["selfty"], ty)
+        params.append("%s: %s" % (nm, ty))
+    bo, bc = pick["body_start"], pick["body_end"]
+    body = text[toks[bo].start:toks[bc].end]
+    st_name = spec["state"].split(":")[0].strip()
+    body2, n = re.subn(r"\b%s\s*\.\s*borrow_mut\s*\(\s*\)" % re.escape(st_name), st_name, body)
+    other = re.findall(r"\b(\w+)\s*\.\s*borrow(?:_mut)?\s*\(", body2)
+    if other:
+        raise GenError("%s: closure `%s` borrows other cells %s" % (fs.key, spec["var"], other))
+    fn_text = "fn %s(&self, %s, %s) -> %s %s" % (spec["fn"], spec["state"], ", ".join(params), spec["ret"], body2)
+    import copy
+    it2 = copy.copy(item)
+    it2.text = fn_text
+    log = ["R-closure-fn: closure `%s` of %s emitted as method `%s`; %d `%s.borrow_mut()` replaced by the explicit `&mut` state parameter; RefCell run-time borrow checks are not modelled" % (
+        spec["var"], fs.name, spec["fn"], n, st_name)]
+    return it2, log
+
 def emit_fn(fs, item, em):
+    pre_log = []
+    if fs.from_closure:
+        import copy
+        item, pre_log = closure_as_fn(fs, item)
+        fs = copy.copy(fs)
+        fs._orig_name = fs.name
+        fs.__class__ = type("FnSpecClosure", (FnSpec,), {"key": property(lambda self: "%s:%s%s::closure %s" % (
+            self.file, ("" if self.header in ("-", None) else self.header + "::"), self._orig_name, self.from_closure["var"]))})
+        fs.name = fs.from_closure["fn"]
     out, log, degraded = instantiate_fn(fs, item, em)
+    log = pre_log + log
     hdr = "    // @src %s:%d-%d sha256=%s key=%s" % (item.file, item.line0, item.line1, item.sha[:16], fs.key)
     em.add(hdr)
     for a in fs.attrs:
@@ -1243,8 +1363,12 @@ def emit_type(d, repo, em):
         text = apply_edits(text, edits)
     if not text.startswith("pub "):
         text = "pub " + text
-    if any(re.match(r"#\[\s*derive\(", a) and re.search(r"\bDebug\b", a) for a in it.attrs):
-        text = "#[derive(Debug)]\n" + text
+    drv = [a for a in it.attrs if re.match(r"#\[\s*derive\(", a)]
+    keep = [d for d in ("Debug", "Clone", "Copy") if any(re.search(r"\b%s\b" % d, a) for a in drv)]
+    if "Copy" not in keep:
+        keep = [d for d in keep if d == "Debug"]      # Clone alone is given by the template (external_body clone with a spec)
+    if keep:
+        text = "#[derive(%s)]\n" % ", ".join(keep) + text
     em.add("    // @src %s:%d-%d sha256=%s type %s (derives dropped, fields pub)" % (
         it.file, it.line0, it.line1, it.sha[:16], d["name"]))
     em.add(text)
